@@ -1024,25 +1024,8 @@ func pureCallee(in ssa.Instruction) *ssa.Function {
 	if b, ok := g.Signature.Results().At(0).Type().Underlying().(*types.Basic); !ok || b.Info()&(types.IsString|types.IsBoolean) == 0 {
 		return nil
 	}
-	for _, b := range g.Blocks {
-		for _, in := range b.Instrs {
-			switch x := in.(type) {
-			case *ssa.Call:
-				if x.Common().IsInvoke() || !pureCalls[CalleeName(x)] {
-					return nil
-				}
-			case *ssa.Store:
-				if !localAddr(x.Addr) {
-					return nil
-				}
-			case *ssa.Go, *ssa.Defer, *ssa.Panic, *ssa.Send, *ssa.Select, *ssa.MapUpdate, *ssa.MakeClosure:
-				return nil
-			case *ssa.UnOp:
-				if x.Op == token.ARROW {
-					return nil
-				}
-			}
-		}
+	if !pureBody(g, 0) {
+		return nil
 	}
 	ts, complete := templates(g, nil)
 	if !complete || len(ts) < 2 || len(ts) > 8 {
@@ -1050,6 +1033,44 @@ func pureCallee(in ssa.Instruction) *ssa.Function {
 	}
 	pureMemo[g] = 1
 	return g
+}
+
+// pureBody: g computes its result from its arguments only: no effects, no calls except the pure library functions
+// above and helpers that are interpreted inline (outside the pinned decomposition) and are pure in the same sense —
+// so a pinned pure function keeps splitting its callers' paths when its body is moved into such helpers
+// (getFilename = hashFilePath(…) = entryPath(…) + hashFileExt(isAdmin)).
+func pureBody(g *ssa.Function, depth int) bool {
+	if g == nil || len(g.Blocks) == 0 || depth > maxInlineDepth {
+		return false
+	}
+	for _, b := range g.Blocks {
+		for _, in := range b.Instrs {
+			switch x := in.(type) {
+			case *ssa.Call:
+				if x.Common().IsInvoke() {
+					return false
+				}
+				if pureCalls[CalleeName(x)] {
+					continue
+				}
+				h := x.Common().StaticCallee()
+				if h == nil || h == g || h.Parent() != nil || !Inlinable(h) || !pureBody(h, depth+1) {
+					return false
+				}
+			case *ssa.Store:
+				if !localAddr(x.Addr) {
+					return false
+				}
+			case *ssa.Go, *ssa.Defer, *ssa.Panic, *ssa.Send, *ssa.Select, *ssa.MapUpdate, *ssa.MakeClosure:
+				return false
+			case *ssa.UnOp:
+				if x.Op == token.ARROW {
+					return false
+				}
+			}
+		}
+	}
+	return true
 }
 
 // PureSplit lists the functions whose branches split their callers' paths.
